@@ -73,31 +73,58 @@ fn inline_text(input: &str) -> bool {
 }
 
 fn through_bundle(input: &str, func: fn(&str) -> Cow<'_, str>) -> Vec<String> {
-    let na = || vec!["na".to_string(); 6];
+    let na = || vec!["na".to_string(); 7];
     if !inline_text(input) {
         return na();
     }
     // m: one text element; n: two around a literal; s: text before, inside and after a select whose selector is a
     // MISSING argument (resolves to an error value, default variant taken); r: text reached through a term reference,
-    // directly, and through a message reference; l: a text-only MULTI-LINE pattern (one text element per line)
+    // directly, and through a message reference; l: a text-only MULTI-LINE pattern (one text element per line);
+    // u: text around references that do NOT resolve (unknown message, term, attribute, function) - the `{name}` placeholders
+    // written for them are not text of the pattern
     let src = format!(
-        "m = {i}\nn = {i}{{ \"|\" }}{i}\ns = {i}{{ $missing ->\n    [a] x\n   *[b] {i}\n}}{i}\n-t = {i}\nr = {{ -t }}{i}{{ m }}\nl =\n    {i}\n    {i}\n{q}",
+        "m = {i}\nn = {i}{{ \"|\" }}{i}\ns = {i}{{ $missing ->\n    [a] x\n   *[b] {i}\n}}{i}\n-t = {i}\nr = {{ -t }}{i}{{ m }}\nl =\n    {i}\n    {i}\nu = {i}{{ nope }}{i}{{ -nope }}{{ m.nope }}{{ NOPE() }}\n{q}",
         i = input,
         // q: a pattern that is exactly ONE string-literal placeable - a literal is not text of the pattern, no transform
         q = if input.chars().any(|c| c == '"' || c == '\\') { String::new() } else { format!("q = {{ \"{}\" }}\n", input) }
     );
-    let res = match FluentResource::try_new(src) {
-        Ok(r) => r,
-        Err(_) => return na(),
+    // the transform in force is the one installed LAST, whatever else was configured before or after it: the same bundle
+    // is built with four configuration histories (hist 0 = set_transform only), all of which must answer alike
+    let mk = |hist: u8| -> Option<FluentBundle<FluentResource>> {
+        let res = FluentResource::try_new(src.clone()).ok()?;
+        let mut bundle: FluentBundle<FluentResource> = FluentBundle::new(vec!["en-US".parse().unwrap()]);
+        bundle.set_use_isolating(false);
+        let noop_formatter = |_: &fluent_bundle::FluentValue, _: &intl_memoizer::IntlLangMemoizer| -> Option<String> { None };
+        match hist {
+            1 => {
+                bundle.set_transform(Some(func));
+                bundle.set_formatter(None);
+            }
+            2 => {
+                bundle.set_formatter(Some(noop_formatter));
+                bundle.set_transform(Some(func));
+                bundle.set_formatter(None);
+            }
+            3 => {
+                bundle.set_transform(Some(|s: &str| -> Cow<str> { Cow::Owned(s.to_ascii_uppercase()) }));
+                bundle.set_transform(None);
+                bundle.set_use_isolating(true);
+                bundle.set_use_isolating(false);
+                bundle.set_formatter(Some(noop_formatter));
+                bundle.set_transform(Some(func));
+            }
+            _ => bundle.set_transform(Some(func)),
+        }
+        bundle.add_resource(res).ok()?;
+        Some(bundle)
     };
-    let mut bundle: FluentBundle<FluentResource> = FluentBundle::new(vec!["en-US".parse().unwrap()]);
-    bundle.set_use_isolating(false);
-    bundle.set_transform(Some(func));
-    if bundle.add_resource(res).is_err() {
-        return na();
-    }
+    let bundle = match mk(0) {
+        Some(b) => b,
+        None => return na(),
+    };
+    let others: Vec<FluentBundle<FluentResource>> = (1..=3).filter_map(mk).collect();
     let mut out = vec![];
-    for id in ["m", "n", "s", "r", "l", "q"] {
+    for id in ["m", "n", "s", "r", "l", "q", "u"] {
         let o = match bundle.get_message(id).and_then(|m| m.value()) {
             Some(p) => {
                 let mut errs = vec![];
@@ -106,9 +133,25 @@ fn through_bundle(input: &str, func: fn(&str) -> Cow<'_, str>) -> Vec<String> {
                 let mut w = String::new();
                 let mut errs2 = vec![];
                 let _ = bundle.write_pattern(&mut w, p, None, &mut errs2);
-                if w != v {
+                let mut hist_diff = None;
+                for (h, ob) in others.iter().enumerate() {
+                    if let Some(op) = ob.get_message(id).and_then(|m| m.value()) {
+                        let mut e3 = vec![];
+                        let ov = ob.format_pattern(op, None, &mut e3).into_owned();
+                        let mut ow = String::new();
+                        let mut e4 = vec![];
+                        let _ = ob.write_pattern(&mut ow, op, None, &mut e4);
+                        if ov != v || ow != v {
+                            hist_diff = Some(format!("CONFIG-HISTORY-{}-DIFFERS:{}/{}", h + 1, hex_enc(ov.as_bytes()), hex_enc(ow.as_bytes())));
+                            break;
+                        }
+                    }
+                }
+                if let Some(d) = hist_diff {
+                    d
+                } else if w != v {
                     format!("WRITE-DIFFERS:{}", hex_enc(w.as_bytes()))
-                } else if errs.is_empty() || (id == "s" && errs.len() == 1) {
+                } else if errs.is_empty() || (id == "s" && errs.len() == 1) || (id == "u" && errs.len() == 4) {
                     hex_enc(v.as_bytes())
                 } else {
                     format!("err{}", errs.len())
@@ -143,7 +186,37 @@ fn run(payload: &str) -> String {
         fluent_pseudo::transform(&input, fl[0], fl[1])
     };
     let o = through_bundle(&input, func);
-    format!("ok:{};m:{};n:{};s:{};r:{};l:{};q:{}", hex_enc(direct.as_bytes()), o[0], o[1], o[2], o[3], o[4], o[5])
+    // the result is a function of the arguments: the same call made while ANOTHER thread transforms the same text in
+    // another style (flipped / elongated the other way round) gives the same result, for both of them
+    let x = if dom && !input.is_empty() {
+        let other = fluent_pseudo::transform_dom(&input, !fl[0], !fl[1], fl[2]).into_owned();
+        let go = std::sync::atomic::AtomicUsize::new(0);
+        let run = |flipped: bool, elongate: bool, expect: &str| -> Option<String> {
+            go.fetch_add(1, std::sync::atomic::Ordering::SeqCst);
+            while go.load(std::sync::atomic::Ordering::SeqCst) < 2 {
+                std::hint::spin_loop();
+            }
+            for _ in 0..40 {
+                let got = fluent_pseudo::transform_dom(&input, flipped, elongate, fl[2]);
+                if got != expect {
+                    return Some(got.into_owned());
+                }
+            }
+            None
+        };
+        let (a, b) = std::thread::scope(|sc| {
+            let h1 = sc.spawn(|| run(fl[0], fl[1], &direct));
+            let h2 = sc.spawn(|| run(!fl[0], !fl[1], &other));
+            (h1.join().unwrap_or(Some("panic".into())), h2.join().unwrap_or(Some("panic".into())))
+        });
+        match a.or(b) {
+            None => "same".to_string(),
+            Some(got) => format!("RACE:{}", hex_enc(got.as_bytes())),
+        }
+    } else {
+        "same".to_string()
+    };
+    format!("ok:{};m:{};n:{};s:{};r:{};l:{};q:{};u:{};x:{}", hex_enc(direct.as_bytes()), o[0], o[1], o[2], o[3], o[4], o[5], o[6], x)
 }
 
 fn main() {
